@@ -223,6 +223,18 @@ def _struct_cases(tier):
     for sa, sb in ((("k",), ("k",)), (("k",), ("k", "m")), (("n", "k"), ("k",)), (("n", "k"), ("k", "m")), (("b", "n", "k"), ("k", "m")), (("n", "k"), ("b", "k", "m")),
                    (("b", "n", "k"), ("b", "k", "m")), (("b", "n", "k"), ("k",)), (("k",), ("b", "k", "m")), ((1, "n", "k"), ("b", "k", "m")), (("c", 1, "n", "k"), ("b", "k", "m"))):
         C.append((f"matmul{sa}x{sb}", "matmul", [A(*sa), A(*sb)], {}, (0, 1)))
+    for sa, sb in (((), ("k",)), (("k",), ()), (("k",), ("k",)), (("n", "k"), ("k",)), (("k",), ("k", "m")), (("n", "k"), ("k", "m")), (("b", "n", "k"), ("k", "m")), (("n", "k"), ("b", "k", "m")),
+                   (("b", "n", "k"), ("c", "k", "m")), (("b", "n", "k"), ("k",)), ((), ("n", "k")), (("n", "k"), ())):
+        C.append((f"dot{sa}x{sb}", "dot", [A(*sa), A(*sb)], {}, (0, 1)))
+    for sa, sb in ((("k",), ("k",)), (("n", "k"), ("k",)), (("n", "k"), ("m", "k")), ((), ("n", "k")), (("n", "k"), ()), (("b", "n", "k"), ("m", "k"))):
+        C.append((f"inner{sa}x{sb}", "inner", [A(*sa), A(*sb)], {}, (0, 1)))
+    C.append(("outer(n)x(m)", "outer", [A("n"), A("m")], {}, (0, 1)))
+    for axes, sa, sb in ((0, ("n",), ("m",)), (1, ("n", "k"), ("k", "m")), (2, ("n", "k", "l"), ("k", "l", "m")), (([1], [0]), ("n", "k"), ("k", "m")), (([0], [1]), ("k", "n"), ("m", "k")),
+                         (([0, 1], [1, 0]), ("k", "l"), ("l", "k", "m")), (([1, 2], [2, 0]), ("n", "k", "l"), ("l", "m", "k")), (([0, 1], [2, 1]), ("k", "l", "n"), ("m", "l", "k")),
+                         (([-1], [0]), ("n", "k"), ("k", "m")), (([1, 0], [0, 1]), ("l", "k"), ("k", "l", "m")), (([2, 0], [0, 1]), ("l", "n", "k"), ("k", "l", "m")), ((1, 0), ("n", "k"), ("k", "m")),
+                         (0, (), ("m",)), (0, ("n",), ())):
+        C.append((f"tensordot(axes={axes}){sa}x{sb}", "tensordot", [A(*sa), A(*sb)], {"axes": axes}, (0, 1)))
+    C.append(("tensordot(default)", "tensordot", [A("n", "k", "l"), A("k", "l", "m")], {}, (0, 1)))
     for axes in (None, (1, 0), (-1, 0), (0, -1)):
         C.append((f"transpose({axes})", "transpose", [A("a", "b"), ("lit", axes)], {}, (0,)))
     for axes in ((2, 0, 1), (1, 2, 0), (-1, 0, 1), (0, -1, -2), (-2, -1, 0)):
